@@ -147,7 +147,33 @@ func runC05(c *Ctx) {
 			}
 			R.Role("C05.R2b", "text writes", n, 1)
 		}
-		c05MRS(sc, phi)
+		qs := map[string]*pa.Query{}
+		c05MRS(sc, phi, func(arm string, pred *ssa.BasicBlock) bool {
+			q, ok := qs[arm]
+			if !ok {
+				var err error
+				if q, err = sc.armQuery(arm, gS, gT); err != nil {
+					q = nil
+				}
+				qs[arm] = q
+			}
+			if q == nil {
+				return false
+			}
+			for k, sb := range pred.Succs {
+				if sb != sc.S.Header {
+					continue
+				}
+				st := q.EdgeState(pred, k)
+				if st == nil || pa.Empty(st) {
+					return true // not reachable from the arm's entry
+				}
+				if ok, _ := q.Holds(st, pa.And(gS, gT)); ok {
+					return true
+				}
+			}
+			return false
+		})
 	}
 
 	// R3: single writer of allowUnsafe
@@ -273,7 +299,10 @@ func moduleFuncs(P *load.Program) []*ssa.Function {
 	return res
 }
 
-func c05MRS(sc *SC, phi *ssa.Phi) {
+// pastGate(arm, pred): on the back edge from pred the path condition implies allowUnsafe ∨ name ∉ {script, style} — the
+// element started is not one whose text has to be suppressed, so what the variable holds there cannot let script or style
+// text through (it can at most suppress more).
+func c05MRS(sc *SC, phi *ssa.Phi, pastGate func(arm string, pred *ssa.BasicBlock) bool) {
 	R := sc.c.R
 	hdr := sc.S.Header
 	nStart := 0
@@ -291,6 +320,10 @@ func c05MRS(sc *SC, phi *ssa.Phi) {
 		case arm == "StartTag":
 			nStart++
 			ok := nameChain(op, func(x ssa.Value) bool { return sc.S.TokenField(x) == "Data" }, nil, 0)
+			if !ok && pastGate(arm, pred) {
+				R.OK("C05.R2a", key, cons, pos, "past the gate: on this edge allowUnsafe holds or the element is neither script nor style, so nothing has to be recorded for the suppression of its text")
+				continue
+			}
 			R.Check(ok, "C05.R2a", key, cons, pos, "carries a name-preserving image of token.Data", "a StartTag path reaches the next token without recording the element name ("+sc.A.Sym.Of(op)+"): script/style content would then be treated as ordinary text")
 		case arm == "SelfClosingTag":
 			// the "/" of <script/> or <style/> is ignored by browsers and by the tokenizer, which goes on to deliver
@@ -340,6 +373,10 @@ func c05MRS(sc *SC, phi *ssa.Phi) {
 						}
 					}
 				}
+			}
+			if !ok && pastGate(arm, pred) {
+				R.OK("C05.R2a", key, cons, pos, "past the gate: on this edge allowUnsafe holds or the element is neither script nor style, so nothing has to be recorded for the suppression of its text")
+				continue
 			}
 			R.Check(ok, "C05.R2a", key, cons, pos, "carries a name-preserving image of token.Data (void elements excepted)", "a self-closing tag of a non-void element reaches the next token without recording the element name ("+stripIDs(sc.A.Sym.Of(op))+"): the text after <script/> or <style/> is the element's raw content and would be emitted as ordinary text")
 		default:
